@@ -127,23 +127,17 @@ func (e *End) read(p []byte) (int, error) {
 		}
 		dl := e.deadline
 		c.mu.Unlock()
-		if dl.IsZero() {
-			<-e.wake
-			continue
-		}
-		d := time.Until(dl)
-		if d <= 0 {
+		if !dl.IsZero() && time.Until(dl) <= 0 {
 			if e.server {
 				c.w.Fault("read-deadline-fired")
 			}
 			return 0, &net.OpError{Op: "read", Net: "tcp", Err: timeoutError{}}
 		}
-		t := time.NewTimer(d)
-		select {
-		case <-e.wake:
-			t.Stop()
-		case <-t.C:
-		}
+		// No timer of its own: the fake clock only moves while the scheduler sleeps, and
+		// after every sleep the scheduler wakes the endpoints whose deadline has passed,
+		// in a fixed order (World.ExpireDeadlines). Simultaneous expiries are thereby
+		// ordered by the run, not by the runtime's timer heap.
+		<-e.wake
 	}
 }
 
@@ -364,6 +358,38 @@ func (c *Conn) ClientReset() {
 	c.w.Fault("reset")
 	c.w.Rec(Ev{Actor: "cli", Kind: "client-reset", Conn: c.ID})
 	c.A.poke()
+}
+
+// expire wakes the endpoint if its read deadline has passed.
+func (e *End) expire() {
+	c := e.c
+	c.mu.Lock()
+	hit := !e.deadline.IsZero() && !time.Now().Before(e.deadline) && !e.closed
+	c.mu.Unlock()
+	if hit {
+		e.poke()
+	}
+}
+
+// ExpireDeadlines wakes, in a fixed order (listener, then connections by id, server end
+// before client end), every endpoint whose deadline has passed. Called by the scheduler
+// after each advance of the fake clock.
+func (w *World) ExpireDeadlines() {
+	w.Listener.expire()
+	for _, c := range w.connsByID() {
+		c.A.expire()
+		c.B.expire()
+	}
+}
+
+func (w *World) connsByID() []*Conn {
+	out := append([]*Conn(nil), w.Conns...)
+	for i := 1; i < len(out); i++ {
+		for j := i; j > 0 && out[j-1].ID > out[j].ID; j-- {
+			out[j-1], out[j] = out[j], out[j-1]
+		}
+	}
+	return out
 }
 
 // ServerClosed reports whether the server end has been closed by the server.
